@@ -42,7 +42,7 @@ describe(
         "request; the two BFS traversals fill the right (inputs, outputs) slots; successive requests only add "
         "differentiated names."
     ),
-    decided=["9.1 block algebra of reverse accumulation", "9.2 ownership of accumulated arrays", "9.3 zero filling / removal", "9.4 traversal cache key", "9.5 traversal slots", "9.6 monotone requests"],
+    decided=["9.1 block algebra of reverse accumulation", "9.2 ownership of accumulated arrays", "9.3 zero filling / removal", "9.4 traversal cache key", "9.5 traversal slots", "9.6 monotone requests", "9.6 linearisation point of each discipline / of the inner chain"],
     not_decided=["numerical exactness of the composite Jacobian", "sufficiency of the set selected by traverse_add_diff_io"],
 )
 
